@@ -1,4 +1,4 @@
-From FV Require Import Common.ExtractTypes Printf.PrintIntModel Fmt.FmtModel Fmt.LoggerModel.
+From FV Require Import Common.ExtractTypes Printf.PrintIntModel Fmt.FmtModel Fmt.LoggerModel Fmt.FmtRef.
 From Coq Require Extraction.
 From Coq Require Import ExtrOcamlBasic.
-Extraction "../build/extract/fmt_model.ml" types_witness run_fmt format_arg default_options run_logger.
+Extraction "../build/extract/fmt_model.ml" types_witness run_fmt format_arg default_options run_logger fmt_ref.
